@@ -85,10 +85,10 @@ def handle (j : Json) : Except String Json := do
     let imm ← getBool j "immutable"
     let ws ← (← getArr j "writers").toList.mapM pOp
     let sched ← (← getArr j "sched").toList.mapM (·.getNat?)
-    let r := Conc.run ws (Conc.init (create cap mvl init imm) ws) sched
+    let r := Conc.run (Conc.init (create cap mvl init imm) ws) sched
     pure (Json.mkObj [("dict", jDict r.st.dict), ("dropped", toJson r.st.dropped),
-                      ("errors", Json.arr (r.errs.map optStr).toArray),
-                      ("done", Json.arr (r.pcs.map (fun p => Json.bool (p == Pc.done))).toArray)])
+                      ("errors", Json.arr (r.thrs.map (fun t => optStr t.err)).toArray),
+                      ("left", Json.arr (r.thrs.map (fun t => toJson (if t.err.isSome then 0 else t.rem.length))).toArray)])
   | "clean" =>
     let k ← pKey (← j.getObjVal? "k")
     let v ← pVal (← j.getObjVal? "v")
